@@ -26,7 +26,8 @@ func cfgA() *vlib.Config {
 
 func cfgB() *vlib.Config {
 	return &vlib.Config{Default: 4, Sets: []*vlib.ParamSet{
-		{ID: 3, Alg: vlib.AlgScrypt, Cost: 10, HmacKey: []byte("fedcba9876543210fedcba9876543210")},
+		// id 2 exists in both configurations with different parameters: a reload redefines it
+		{ID: 2, Alg: vlib.AlgScrypt, Cost: 10, HmacKey: []byte("fedcba9876543210fedcba9876543210")},
 		{ID: 4, Alg: vlib.AlgArgon, Time: 2, Memory: 16, Threads: 1, Length: 24}}}
 }
 
@@ -49,7 +50,7 @@ func TestC18Reload(t *testing.T) {
 	rapid.Check(t, func(t *rapid.T) {
 		var steps []reloadStep
 		for i, n := 0, rapid.IntRange(1, 5).Draw(t, "nsteps"); i < n; i++ {
-			steps = append(steps, reloadStep{Kind: rapid.SampledFrom([]string{"good", "good", "unparsable", "check-fails", "samedir-unsupported", "missing-file", "check-fails-other"}).Draw(t, "kind"),
+			steps = append(steps, reloadStep{Kind: rapid.SampledFrom([]string{"good", "good", "unparsable", "check-fails", "samedir-unsupported", "missing-file", "check-fails-other", "no-sets"}).Draw(t, "kind"),
 				Load: rapid.SampledFrom([]int{0, 6, 18}).Draw(t, "load"), HUPs: rapid.SampledFrom([]int{1, 1, 2, 5}).Draw(t, "hups")})
 		}
 		if rapid.Bool().Draw(t, "forceLoadedGood") {
@@ -75,7 +76,7 @@ func TestC18Reload(t *testing.T) {
 		}
 		noAdmin := filepath.Join(root, "noadmin")
 		os.Mkdir(noAdmin, 0o700)
-		writeUser(noAdmin, cfgB(), seedUser{Name: "bert", PW: "x", PID: 3})
+		writeUser(noAdmin, cfgB(), seedUser{Name: "bert", PW: "x", PID: 2})
 		cfgFile := filepath.Join(root, "store.yaml")
 		wa.cfg.WriteYAML(cfgFile, wa.base)
 		upg := rapid.SampledFrom([]string{"", "local"}).Draw(t, "upgrades")
@@ -92,7 +93,13 @@ func TestC18Reload(t *testing.T) {
 			data, _ := os.ReadFile(hookLog)
 			return strings.Fields(string(data))
 		}
-		a, err := startAgent(root, cfgFile, agentOpts{listeners: []string{"sasl", "http"}, upgrades: upg, hooksDir: hooksDir})
+		// the start-up check can be switched off; the check that guards a reload is part of the reload
+		var env []string
+		if rapid.IntRange(0, 3).Draw(t, "nocheck") == 0 {
+			env = []string{"WHAWTY_AUTH_DO_CHECK=false"}
+			vlib.Class("reload:agent-started-with-do-check=false")
+		}
+		a, err := startAgent(root, cfgFile, agentOpts{listeners: []string{"sasl", "http"}, upgrades: upg, hooksDir: hooksDir, env: env})
 		if err != nil {
 			t.Fatalf("VERIF-INFRA %v", err)
 		}
@@ -171,6 +178,9 @@ func TestC18Reload(t *testing.T) {
 				c2.WriteYAML(cfgFile, cur.base+rapid.SampledFrom([]string{"", "", "/", "/."}).Draw(t, "spelling"))
 			case "missing-file":
 				os.Remove(cfgFile)
+			case "no-sets":
+				// a configuration without any parameter set is well-formed, but no directory with users passes the check under it
+				os.WriteFile(cfgFile, []byte(fmt.Sprintf("basedir: %q\n", rapid.SampledFrom([]string{cur.base, other.base}).Draw(t, "nosetsdir"))), 0o600)
 			}
 			// client load around the signal
 			var wg sync.WaitGroup
